@@ -24,5 +24,18 @@ s = open(p).read()
 a, b = "<!-- SEED-TABLE-BEGIN -->", "<!-- SEED-TABLE-END -->"
 i, j = s.index(a) + len(a), s.index(b)
 s = s[:i] + "\n" + table + "\n" + s[j:]
+# known-findings summary
+kf = json.load(open("/verif/known_findings.json"))
+from collections import Counter
+cnt = Counter((f["property"], f["rule"]) for f in kf["findings"])
+lines = ["| property | rule | listed findings |", "|---|---|---|"]
+for (pp, rr), n in sorted(cnt.items()):
+    ex = next(f for f in kf["findings"] if (f["property"], f["rule"]) == (pp, rr))
+    lines.append(f"| {pp} | {rr} | {n} — e.g. `{ex['construct']}` |")
+lines.append(f"| | total | {len(kf['findings'])} listed, {len({l.split()[3] for l in kf['fixed']})} repaired defects ({len(kf['fixed'])} `fixed:` records) |")
+a2, b2 = "<!-- KF-TABLE-BEGIN -->", "<!-- KF-TABLE-END -->"
+if a2 in s:
+    i2, j2 = s.index(a2) + len(a2), s.index(b2)
+    s = s[:i2] + "\n" + "\n".join(lines) + "\n" + s[j2:]
 open(p, "w").write(s)
-print(len(rows), "rows")
+print(len(rows), "rows;", len(kf["findings"]), "findings")
